@@ -150,8 +150,7 @@ EmptyAttrErr(a) ==
   /\ AVLive(a) /\ avState[a] = "running"      \* anywhere in the spawn loop (HashMap order of blocks)
   /\ [k |-> "emptyattr"] \in TaskOutcomes[KindOf[a]]
   /\ avRes' = [avRes EXCEPT ![a] = "err"]
-  /\ tstate' = [b \in AllBlocks |-> IF b \in BlocksSet(a) /\ tstate[b] = "spawned" THEN "aborted" ELSE tstate[b]]
-  /\ UNCHANGED <<svars, avState, avSpawnI, calls, reqs, ret, joined, avAcc, ovars, mvars>>
+  /\ UNCHANGED <<svars, avState, avSpawnI, tstate, calls, reqs, ret, joined, avAcc, ovars, mvars>>
 
 \* the spawn loop is over; validate() starts draining its JoinSet
 SpawnLoopDone(a) ==
@@ -187,9 +186,11 @@ JoinNext(a, b) ==
   /\ AVLive(a) /\ avState[a] = "joining"
   /\ b \in BlocksSet(a) \ joined[a] /\ tstate[b] = "returned"
   /\ IF IsErrRet(ret[b])
-     THEN /\ avRes' = [avRes EXCEPT ![a] = "err"]          \* Err(e) => return Err(e): the JoinSet is dropped
-          /\ tstate' = [x \in AllBlocks |-> IF x \in BlocksSet(a) /\ tstate[x] = "spawned" THEN "aborted" ELSE tstate[x]]
-          /\ UNCHANGED <<joined, avAcc>>
+     THEN /\ avRes' = [avRes EXCEPT ![a] = "err"]          \* Err(e) => return Err(e): the JoinSet is dropped.
+          \* Dropping a JoinSet aborts its tasks cooperatively: a task that a worker has already
+          \* picked up may still run (observed in recorded traces), so no task state changes here;
+          \* what matters is that nothing is joined or merged any more.
+          /\ UNCHANGED <<joined, avAcc, tstate>>
      ELSE /\ joined' = [joined EXCEPT ![a] = @ \cup {b}]
           /\ avAcc' = [avAcc EXCEPT ![a] = IF IsDiagRet(ret[b])
                                            THEN Merge(@, Single(FileOf[b], DiagOf(a, b, ret[b]))) ELSE @]
@@ -208,11 +209,10 @@ OuterJoin(a) ==
   /\ AsyncLive /\ outerSpawnI > Len(AsyncOrder) /\ a \in AV \ outerJoined /\ avRes[a] # "pending"
   /\ IF avRes[a] = "err"
      THEN /\ asyncRes' = "err"
-          /\ tstate' = [x \in AllBlocks |-> IF tstate[x] = "spawned" THEN "aborted" ELSE tstate[x]]
           /\ UNCHANGED <<outerJoined, asyncAcc>>
      ELSE /\ outerJoined' = outerJoined \cup {a} /\ asyncAcc' = Merge(asyncAcc, avAcc[a])
-          /\ UNCHANGED <<asyncRes, tstate>>
-  /\ UNCHANGED <<svars, avState, avSpawnI, calls, reqs, ret, joined, avAcc, avRes, outerSpawnI, mvars>>
+          /\ UNCHANGED asyncRes
+  /\ UNCHANGED <<svars, avState, avSpawnI, tstate, calls, reqs, ret, joined, avAcc, avRes, outerSpawnI, mvars>>
 
 AsyncDone ==
   /\ AsyncLive /\ outerSpawnI > Len(AsyncOrder) /\ outerJoined = AV
